@@ -563,6 +563,29 @@ def main():
             record(k, text)
             if a != b:
                 fails.append({"clause": "C13:project-differs", "key": f"C13/{SEED}/{k}", "detail": "extensions on vs off", "input": text})
+        # second sub-universe: shifts that cross midnight / cover only some weekdays (the compiled working-hours check has
+        # its own weekday and tail arithmetic)
+        daysets = ["mon - fri", "sun - thu", "sat, sun", "mon, wed, fri", "sun", "mon - sun"]
+        spans = ["22:00 - 06:00", "20:00 - 04:00", "23:00 - 01:00", "09:00 - 17:00", "00:00 - 08:00"]
+        for k in range(n // 3):
+            ds, sp = rng.choice(daysets), rng.choice(spans)
+            st = rng.choice(["2025-09-01", "2025-09-06", "2025-09-07", "2025-12-28"])
+            text = (f'project prj "N" {st} +3w {{ timezone "Etc/UTC" }}\n'
+                    f'shift sh "S" {{ workinghours {ds} {sp} }}\nresource crew "C" {{ workinghours sh }}\n'
+                    f'task a "a" {{ effort {rng.choice([5, 12, 20])}h allocate crew }}\ntask b "b" {{ effort 7h allocate crew depends a }}\n')
+            try:
+                M1._USE_CYTHON = M2._USE_CYTHON = M3._USE_CYTHON = True
+                a = dates(run(text))
+                la = ledger(run(text))
+                M1._USE_CYTHON = M2._USE_CYTHON = M3._USE_CYTHON = False
+                b = dates(run(text))
+                lb = ledger(run(text))
+            finally:
+                M1._USE_CYTHON, M2._USE_CYTHON, M3._USE_CYTHON = orig
+            evals += 1
+            record(("night", k), text)
+            if a != b or la != lb:
+                fails.append({"clause": "C13:project-differs", "key": f"C13/night/{SEED}/{k}", "detail": f"extensions on {a} vs off {b}"[:300], "input": text})
     elif prop == "C14":
         for k, p in enumerate(gen_projects(rng, n // 2)):
             base = dates(run(render(p)))
